@@ -23,3 +23,385 @@ pub fn k_c10_accessors() {
     crate::ob::c10::accessors(&mut KaniSrc);
 }
 
+#[kani::proof]
+#[kani::unwind(5)]
+pub fn k_c20_flags() {
+    crate::ob::c20::flags(&mut KaniSrc);
+}
+
+#[kani::proof]
+#[kani::unwind(5)]
+pub fn k_c20_order() {
+    crate::ob::c20::order(&mut KaniSrc);
+}
+
+#[kani::proof]
+pub fn k_c11_card_order() {
+    crate::ob::c11::card_order(&mut KaniSrc);
+}
+
+#[kani::proof]
+#[kani::unwind(11)]
+pub fn k_c11_sort_2() {
+    crate::ob::c11::sort_2(&mut KaniSrc);
+}
+
+#[kani::proof]
+#[kani::unwind(15)]
+pub fn k_c11_sort_3() {
+    crate::ob::c11::sort_3(&mut KaniSrc);
+}
+
+#[kani::proof]
+#[kani::unwind(19)]
+pub fn k_c11_sort_4() {
+    crate::ob::c11::sort_4(&mut KaniSrc);
+}
+
+#[kani::proof]
+#[kani::unwind(23)]
+pub fn k_c11_sort_5() {
+    crate::ob::c11::sort_5(&mut KaniSrc);
+}
+
+#[kani::proof]
+#[kani::unwind(27)]
+pub fn k_c11_sort_6() {
+    crate::ob::c11::sort_6(&mut KaniSrc);
+}
+
+#[kani::proof]
+#[kani::unwind(31)]
+pub fn k_c11_sort_7() {
+    crate::ob::c11::sort_7(&mut KaniSrc);
+}
+
+#[kani::proof]
+#[kani::unwind(11)]
+pub fn k_c19_two() {
+    crate::ob::c19::two(&mut KaniSrc);
+}
+
+#[kani::proof]
+#[kani::unwind(15)]
+pub fn k_c19_three() {
+    crate::ob::c19::three(&mut KaniSrc);
+}
+
+#[kani::proof]
+#[kani::unwind(19)]
+pub fn k_c19_four() {
+    crate::ob::c19::four(&mut KaniSrc);
+}
+
+#[kani::proof]
+#[kani::unwind(23)]
+pub fn k_c19_five() {
+    crate::ob::c19::five(&mut KaniSrc);
+}
+
+#[kani::proof]
+#[kani::unwind(27)]
+pub fn k_c19_six() {
+    crate::ob::c19::six(&mut KaniSrc);
+}
+
+#[kani::proof]
+#[kani::unwind(31)]
+pub fn k_c19_seven() {
+    crate::ob::c19::seven(&mut KaniSrc);
+}
+
+#[kani::proof]
+#[kani::unwind(31)]
+pub fn k_c19_seven_two_writes() {
+    crate::ob::c19::seven_two_writes(&mut KaniSrc);
+}
+
+#[kani::proof]
+pub fn k_c14_from_ckc() {
+    crate::ob::c14::from_ckc(&mut KaniSrc);
+}
+
+#[kani::proof]
+pub fn k_c14_from_binary_card() {
+    crate::ob::c14::from_binary_card(&mut KaniSrc);
+}
+
+#[kani::proof]
+pub fn k_c14_round_trip() {
+    crate::ob::c14::round_trip(&mut KaniSrc);
+}
+
+#[kani::proof]
+#[kani::unwind(4)]
+pub fn k_c15_from_2() {
+    crate::ob::c15::from_2(&mut KaniSrc);
+}
+
+#[kani::proof]
+#[kani::unwind(4)]
+pub fn k_c15_count_2() {
+    crate::ob::c15::count_2(&mut KaniSrc);
+}
+
+#[kani::proof]
+#[kani::unwind(5)]
+pub fn k_c15_from_3() {
+    crate::ob::c15::from_3(&mut KaniSrc);
+}
+
+#[kani::proof]
+#[kani::unwind(5)]
+pub fn k_c15_count_3() {
+    crate::ob::c15::count_3(&mut KaniSrc);
+}
+
+#[kani::proof]
+#[kani::unwind(6)]
+pub fn k_c15_from_4() {
+    crate::ob::c15::from_4(&mut KaniSrc);
+}
+
+#[kani::proof]
+#[kani::unwind(6)]
+pub fn k_c15_count_4() {
+    crate::ob::c15::count_4(&mut KaniSrc);
+}
+
+#[kani::proof]
+#[kani::unwind(7)]
+pub fn k_c15_from_5() {
+    crate::ob::c15::from_5(&mut KaniSrc);
+}
+
+#[kani::proof]
+#[kani::unwind(7)]
+pub fn k_c15_count_5() {
+    crate::ob::c15::count_5(&mut KaniSrc);
+}
+
+#[kani::proof]
+#[kani::unwind(8)]
+pub fn k_c15_from_6() {
+    crate::ob::c15::from_6(&mut KaniSrc);
+}
+
+#[kani::proof]
+#[kani::unwind(8)]
+pub fn k_c15_count_6() {
+    crate::ob::c15::count_6(&mut KaniSrc);
+}
+
+#[kani::proof]
+#[kani::unwind(9)]
+pub fn k_c15_from_7() {
+    crate::ob::c15::from_7(&mut KaniSrc);
+}
+
+#[kani::proof]
+#[kani::unwind(9)]
+pub fn k_c15_count_7() {
+    crate::ob::c15::count_7(&mut KaniSrc);
+}
+
+#[kani::proof]
+#[kani::unwind(66)]
+pub fn k_c15_set_ops() {
+    crate::ob::c15::set_ops(&mut KaniSrc);
+}
+
+#[kani::proof]
+#[kani::unwind(66)]
+pub fn k_c15_peel() {
+    crate::ob::c15::peel(&mut KaniSrc);
+}
+
+#[kani::proof]
+#[kani::unwind(66)]
+pub fn k_c15_peel_twice() {
+    crate::ob::c15::peel_twice(&mut KaniSrc);
+}
+
+#[kani::proof]
+#[kani::unwind(66)]
+pub fn k_c16_try_from() {
+    crate::ob::c16::try_from(&mut KaniSrc);
+}
+
+#[kani::proof]
+#[kani::unwind(5)]
+pub fn k_c17_chen() {
+    crate::ob::c17::chen_formula(&mut KaniSrc);
+}
+
+#[kani::proof]
+pub fn k_c17_chen_points() {
+    crate::ob::c17::chen_points(&mut KaniSrc);
+}
+
+#[kani::proof]
+pub fn k_c18_deck() {
+    crate::ob::c18::deck(&mut KaniSrc);
+}
+
+#[kani::proof]
+#[kani::unwind(18)]
+pub fn k_c18_presets() {
+    crate::ob::c18::presets(&mut KaniSrc);
+}
+
+#[kani::proof]
+#[kani::unwind(23)]
+pub fn k_c18_slot_tables() {
+    crate::ob::c18::slot_tables(&mut KaniSrc);
+}
+
+#[kani::proof]
+#[kani::unwind(7)]
+pub fn k_c13_predicates() {
+    crate::ob::c13::predicates(&mut KaniSrc);
+}
+
+#[kani::proof]
+#[kani::unwind(12)]
+pub fn k_c06_name_class_all() {
+    crate::ob::c06::name_class_all(&mut KaniSrc);
+}
+
+#[kani::proof]
+pub fn k_c06_class_ranges() {
+    crate::ob::c06::class_ranges(&mut KaniSrc);
+}
+
+#[kani::proof]
+pub fn k_c06_class_table_order() {
+    crate::ob::c06::class_table_order(&mut KaniSrc);
+}
+
+#[kani::proof]
+pub fn k_c07_pair_laws() {
+    crate::ob::c07::pair_laws(&mut KaniSrc);
+}
+
+#[kani::proof]
+pub fn k_c07_transitive() {
+    crate::ob::c07::transitive(&mut KaniSrc);
+}
+
+#[kani::proof]
+pub fn k_c07_enum_monotone() {
+    crate::ob::c07::enum_monotone(&mut KaniSrc);
+}
+
+#[kani::proof]
+pub fn k_c08_card_cycle() {
+    crate::ob::c08::card_cycle(&mut KaniSrc);
+}
+
+#[kani::proof]
+#[kani::unwind(4)]
+pub fn k_c08_slotwise_2() {
+    crate::ob::c08::slotwise_2(&mut KaniSrc);
+}
+
+#[kani::proof]
+#[kani::unwind(5)]
+pub fn k_c08_slotwise_3() {
+    crate::ob::c08::slotwise_3(&mut KaniSrc);
+}
+
+#[kani::proof]
+#[kani::unwind(6)]
+pub fn k_c08_slotwise_4() {
+    crate::ob::c08::slotwise_4(&mut KaniSrc);
+}
+
+#[kani::proof]
+#[kani::unwind(7)]
+pub fn k_c08_slotwise_5() {
+    crate::ob::c08::slotwise_5(&mut KaniSrc);
+}
+
+#[kani::proof]
+#[kani::unwind(8)]
+pub fn k_c08_slotwise_6() {
+    crate::ob::c08::slotwise_6(&mut KaniSrc);
+}
+
+#[kani::proof]
+#[kani::unwind(9)]
+pub fn k_c08_slotwise_7() {
+    crate::ob::c08::slotwise_7(&mut KaniSrc);
+}
+
+#[kani::proof]
+#[kani::unwind(7)]
+pub fn k_c08_five_triple() {
+    crate::ob::c08::five_triple(&mut KaniSrc);
+}
+
+#[kani::proof]
+#[kani::unwind(5)]
+pub fn k_c04_valid_2() {
+    crate::ob::c04::valid_2(&mut KaniSrc);
+}
+
+#[kani::proof]
+#[kani::unwind(6)]
+pub fn k_c04_valid_3() {
+    crate::ob::c04::valid_3(&mut KaniSrc);
+}
+
+#[kani::proof]
+#[kani::unwind(7)]
+pub fn k_c04_valid_4() {
+    crate::ob::c04::valid_4(&mut KaniSrc);
+}
+
+#[kani::proof]
+#[kani::unwind(8)]
+pub fn k_c04_valid_5() {
+    crate::ob::c04::valid_5(&mut KaniSrc);
+}
+
+#[kani::proof]
+#[kani::unwind(9)]
+pub fn k_c04_valid_6() {
+    crate::ob::c04::valid_6(&mut KaniSrc);
+}
+
+#[kani::proof]
+#[kani::unwind(10)]
+pub fn k_c04_valid_7() {
+    crate::ob::c04::valid_7(&mut KaniSrc);
+}
+
+#[kani::proof]
+pub fn k_c12_rank_char() {
+    crate::ob::c12::rank_char(&mut KaniSrc);
+}
+
+#[kani::proof]
+pub fn k_c12_suit_char() {
+    crate::ob::c12::suit_char(&mut KaniSrc);
+}
+
+#[kani::proof]
+#[kani::unwind(6)]
+pub fn k_c12_render_parse() {
+    crate::ob::c12::render_parse(&mut KaniSrc);
+}
+
+#[kani::proof]
+#[kani::unwind(6)]
+pub fn k_c12_two_chars() {
+    crate::ob::c12::two_chars(&mut KaniSrc);
+}
+
+#[kani::proof]
+#[kani::unwind(6)]
+pub fn k_c12_short_tokens() {
+    crate::ob::c12::short_tokens(&mut KaniSrc);
+}
+
